@@ -48,6 +48,9 @@ func (d *DatasourceExecuting) Run(ctx ExecutionContext, produce ProduceFn, metaS
 
 	done := make(chan error, 1)
 
+	verifID := verifJSONStart(outChan, d.tail)
+	defer verifJSONEvent(verifID, "ccancel", 0) // deferred last, so it runs right before cancel()
+
 	// linesRead is first incremented by the line reader.
 	// Then, after the line reader is done, it's read by the consumer,
 	// so it knows when it's done reading all the lines.
@@ -77,9 +80,13 @@ func (d *DatasourceExecuting) Run(ctx ExecutionContext, produce ProduceFn, metaS
 			if len(job.lines) == batchSize {
 				select {
 				case outChanAvailableTokens <- struct{}{}:
+					verifJSONEvent(verifID, "rtok", 0)
+					verifJSONEvent(verifID, "rsub", job.lines[0])
 					parserWorkReceiveChannel <- job
 					linesRead += len(job.lines)
+					verifJSONEvent(verifID, "rwrite", len(job.lines))
 				case <-localCtx.Done():
+					verifJSONEvent(verifID, "rstop", 0)
 					return
 				}
 				job = jobIn{
@@ -96,12 +103,17 @@ func (d *DatasourceExecuting) Run(ctx ExecutionContext, produce ProduceFn, metaS
 		if len(job.lines) > 0 {
 			select {
 			case outChanAvailableTokens <- struct{}{}:
+				verifJSONEvent(verifID, "rtok", 0)
+				verifJSONEvent(verifID, "rsub", job.lines[0])
 				parserWorkReceiveChannel <- job
 				linesRead += len(job.lines)
+				verifJSONEvent(verifID, "rwrite", len(job.lines))
 			case <-localCtx.Done():
+				verifJSONEvent(verifID, "rstop", 0)
 				return
 			}
 		}
+		verifJSONEvent(verifID, "rdone", 0)
 		done <- sc.Err()
 	}()
 
@@ -112,10 +124,13 @@ produceLoop:
 	for {
 		select {
 		case outJobs := <-outChan:
+			verifJSONEvent(verifID, "crecv", outJobs[0].line)
+			verifJSONEvent(verifID, "ctok", 0)
 			<-outChanAvailableTokens
 			for i := range outJobs {
 				out := outJobs[i]
 				if err := out.err; err != nil {
+					verifJSONEvent(verifID, "cerr", out.line)
 					return fmt.Errorf("couldn't parse line %d: %w", out.line+1 /*lines in OctoSQL start at zero*/, err)
 				}
 				for len(queue) <= out.line-startIndex {
@@ -125,25 +140,32 @@ produceLoop:
 				for len(queue) > 0 && queue[0] != nil {
 					record := queue[0]
 					if err := produce(ProduceFromExecutionContext(ctx), *record); err != nil {
+						verifJSONEvent(verifID, "cstop", startIndex)
 						return fmt.Errorf("couldn't produce: %w", err)
 					}
 					queue = queue[1:]
 					startIndex++
 				}
 			}
+			verifJSONEvent(verifID, "cproc", startIndex)
 			if fileReaderIsDone && startIndex == linesRead {
+				verifJSONEvent(verifID, "cbreak", linesRead)
 				break produceLoop
 			}
 		case readerErr := <-done:
 			if readerErr != nil {
+				verifJSONEvent(verifID, "cdone", 1)
 				return readerErr
 			}
+			verifJSONEvent(verifID, "cdone", 0)
 			fileReaderIsDone = true
 			done = nil // will block this select branch from now on
 			if fileReaderIsDone && startIndex == linesRead {
+				verifJSONEvent(verifID, "cbreak", linesRead)
 				break produceLoop
 			}
 		case <-ctx.Done():
+			verifJSONEvent(verifID, "cctx", 0)
 			return ctx.Err()
 		}
 	}
